@@ -17,6 +17,8 @@
  *   eintr_every:<call>:<role>:<period>    every <period>-th call (period>=2) fails with EINTR
  *   dirshuffle:<seed>                     readdir order = entries sorted by name, shuffled by seed
  *   rand:<seed>                           getrandom() stream
+ *   tty:<role>                            isatty() answers yes for STDIN/STDOUT/STDERR
+ *   clock:<seconds>                       wall clock and monotonic clock shifted by this offset
  * calls: open read write mkdir opendir     roles: STDIN STDOUT STDERR INPUT OUTPUT DIR ANY
  *
  * Only descriptors 0,1,2 and files opened through RELATIVE paths are tracked;
@@ -66,6 +68,8 @@ static int dirshuffle_on = 0;
 static unsigned long long dirshuffle_seed = 0;
 static unsigned long long rand_state = 0x1234567;
 static int rand_on = 0;
+static int tty_role[R_N];
+static long long clock_offset = 0;
 
 static void logf_(const char *fmt, ...) {
     if (log_fd < 0) return;
@@ -132,6 +136,11 @@ static void parse_item(char *item) {
         else if (!strcmp(f[0], "eintr_every") && n_eintr < MAXITEMS) { if (it.val < 2) it.val = 2; eintrs[n_eintr++] = it; }
     } else if (!strcmp(f[0], "dirshuffle") && nf >= 2) {
         dirshuffle_on = 1; dirshuffle_seed = strtoull(f[1], 0, 10);
+    } else if (!strcmp(f[0], "tty") && nf >= 2) {
+        int r = parse_role(f[1]);
+        if (r >= 0) tty_role[r] = 1;
+    } else if (!strcmp(f[0], "clock") && nf >= 2) {
+        clock_offset = strtoll(f[1], 0, 10);
     } else if (!strcmp(f[0], "rand") && nf >= 2) {
         rand_on = 1; rand_state = strtoull(f[1], 0, 10);
     } else {
@@ -451,4 +460,34 @@ ssize_t getrandom(void *buf, size_t len, unsigned int flags) {
     }
     logf_("E getrandom len=%zu", len);
     return (ssize_t)len;
+}
+
+/* ---- ambient conditions the contract does not depend on: terminal or not, what time it is ---- */
+int isatty(int fd) {
+    init();
+    int role = role_of_fd(fd);
+    if (role >= 0 && role < R_N && tty_role[role]) { logf_("E isatty %s -> 1 INJ", role_name[role]); return 1; }
+    static int (*real)(int) = 0;
+    if (!real) real = (int (*)(int))dlsym(RTLD_NEXT, "isatty");
+    return real(fd);
+}
+
+#include <time.h>
+#include <sys/time.h>
+int clock_gettime(clockid_t id, struct timespec *ts) {
+    long r = syscall(SYS_clock_gettime, id, ts);
+    if (r == 0 && ts && clock_offset) ts->tv_sec += clock_offset;
+    return (int)r;
+}
+int gettimeofday(struct timeval *tv, void *tz) {
+    long r = syscall(SYS_gettimeofday, tv, tz);
+    if (r == 0 && tv && clock_offset) tv->tv_sec += clock_offset;
+    return (int)r;
+}
+time_t time(time_t *t) {
+    struct timespec ts;
+    syscall(SYS_clock_gettime, CLOCK_REALTIME, &ts);
+    time_t v = ts.tv_sec + clock_offset;
+    if (t) *t = v;
+    return v;
 }
